@@ -147,14 +147,19 @@ def solve_pulp_vertex(lp, rng, stats=None):
 
 def solve_matrix(c, A_ub, b_ub, A_eq, b_eq, bounds, maximize=False):
     """Returns (status, objective value, x). status: 'optimal'|'infeasible'|'unbounded'|'error'.
-    Infeasibility is declared only if it persists at a primal tolerance of 1e-6 (ten times
-    CBC's): the code's round-2 pins are +-1e-5 relative and sit on the edge at 1e-7."""
+    Infeasibility is declared only if it persists at a primal tolerance of 1e-5: the code's
+    round-2 pins are +-1e-5 (+-1e-4 for small populations) relative and sit on the edge."""
     s = -1.0 if maximize else 1.0
     try:
         res = _lin(s * np.asarray(c, float), A_ub, b_ub, A_eq, b_eq, bounds)
-        if res.status == 2:
+        for tol in (1e-6, 1e-5):
+            # marginal instances: the code's own LP (round-2 pins of +-1e-5 / +-1e-4 relative) can be feasible
+            # for CBC and infeasible for HiGHS below 1e-5 (SLV, all resilient foods: HiGHS rejects the code's
+            # own PuLP model up to 1e-6 and accepts it at 1e-5 with the same optimum)
+            if res.status != 2:
+                break
             res = _lin(s * np.asarray(c, float), A_ub, b_ub, A_eq, b_eq, bounds,
-                       dict(HIGHS_OPTS, primal_feasibility_tolerance=1e-6))
+                       dict(HIGHS_OPTS, primal_feasibility_tolerance=tol))
         if res.status == 4:
             # HiGHS "numerical difficulties": try the other HiGHS algorithms before giving up
             for method, opts in (("highs-ipm", HIGHS_OPTS), ("highs-ds", dict(HIGHS_OPTS, presolve=False))):
